@@ -18,20 +18,24 @@ LEVEL_TEXT = ('static analysis: (D1) center_all interpreted on a symbolic table 
               'the per-chromosome values, or directly when by_chrom is off -- to exactly the autosomal bins (plus PAR-X iff a PAR genome is '
               'given; minus null-coverage bins iff skip_low); tables without any autosome-like name are centred on all their bins, with or '
               'without a PAR genome; the location estimators center_all binds return the value itself for constant data / a single bin (C19-D5 '
-              'rule); which bins are PAR-X / PAR-Y is decided on literal bins around every PAR boundary (C01-D2b rule); (D2) the estimator names '
-              'mean / median / mode / biweight are bound to the named functions, equal the CLI choices, and any other string raises; (D3) '
-              'shift_xx moves X by -1 iff (female sample, male reference), +1 iff (male sample, female reference), nothing else, on a copy; the '
-              'flat reference profile (C05-D2 rule: autosomes 0, Y -1 incl. PAR-Y for a female reference, X -1 iff male reference); guess_xx '
-              "returns the negation of compare_sex_chromosomes' maleness verdict (None passed on) -- of this call: asked twice on one array with "
-              'another reference sex the second answer follows the second verdict and the metadata is not extended; the `sex` report prints Male '
-              'iff that verdict; and the decision skeleton of compare_sex_chromosomes on noise-free levels (its median-difference path): X / Y at'
-              " the levels expected for the sample's sex under either reference sex, with or without chrY, is classified as that sex; (D3c) "
-              'verify_sample_sex returns the stated sex whenever one is stated (x / y / f / m / female / male), else the inferred one; (D4) the '
-              'sex / PAR flags reach same-role parameters. (CLI) the `call --center / sex` command line(s), through a model of argparse built '
-              'from the declarations in commands.py and the real _cmd_ body interpreted with readers, library step and writers stubbed: the '
-              'estimator (or `median` when --center has no value), --drop-low-coverage and the PAR genome reach center_all, --center-at shifts '
-              "instead; every file, -y and the PAR genome reach do_sex. Does not decide the Mood's-median-test inference under noise "
-              '(statistical).')
+              'rule); which bins are PAR-X / PAR-Y is decided on literal bins around every PAR boundary (C01-D2b rule); (D2) center_all(<name>), '
+              'interpreted with the four estimators recording their calls, applies the estimator of that name for mean / median / mode / biweight'
+              ' (the median by default), those names equal the CLI choices, and any other string raises; (D3) shift_xx moves X by -1 iff (female '
+              'sample, male reference), +1 iff (male sample, female reference), nothing else, on a copy; the flat reference profile (C05-D2 rule:'
+              ' autosomes 0, Y -1 incl. PAR-Y for a female reference, X -1 iff male reference); guess_xx returns the negation of '
+              "compare_sex_chromosomes' maleness verdict (None passed on) -- of this call: asked twice on one array with another reference sex "
+              'the second answer follows the second verdict and the metadata is not extended; the `sex` report prints Male iff that verdict; and '
+              'the decision skeleton of compare_sex_chromosomes on noise-free levels (its median-difference path): X / Y at the levels expected '
+              "for the sample's sex under either reference sex, with or without chrY, is classified as that sex; (D3c) verify_sample_sex returns "
+              'the stated sex whenever one is stated (x / y / f / m / female / male), else the inferred one; (D4) the sex / PAR flags reach same-'
+              'role parameters. (LOW) drop_low_coverage on every subset of five literal bin kinds, with and without a depth column, drops exactly'
+              ' the bins with log2 < -15 or depth 0, on a copy; (STATE) no class-level or module-level container is written by the table classes '
+              '(C10 rule: the X / Y labels a table caches are its own); the row-class tables stand for tables with any index, so row positions '
+              'used as labels (np.flatnonzero through .loc) are rejected. (CLI) the `call --center / sex` command line(s), through a model of '
+              'argparse built from the declarations in commands.py and the real _cmd_ body interpreted with readers, library step and writers '
+              'stubbed: the estimator (or `median` when --center has no value), --drop-low-coverage and the PAR genome reach center_all, '
+              "--center-at shifts instead; every file, -y and the PAR genome reach do_sex. Does not decide the Mood's-median-test inference under"
+              ' noise (statistical).')
 TECHNIQUE = "abstract interpretation with an opaque estimator (uniform-shift identity, argument provenance); registry agreement; decision tables; role-flow"
 
 CNA = "cnvlib.cnary.CopyNumArray"
